@@ -4,9 +4,9 @@ C06 — BibTeX-engine output depends only on the cited entries and the style.
 Property theorems only.  Model of the code: `Model/Engine.lean` (`makeBibliography`,
 `formatFromFiles`) on top of `Model/Interp.lean` (the interpreter), `Model/AuxFile.lean` (the
 `.aux` reader, C20), `Model/Citations.lean` / `Model/Crossref.lean` (C05, C14); helper lemmas:
-`Lemmas/Engine.lean`.
+`Lemmas/Engine.lean`, `Lemmas/EngineRun.lean`, `Lemmas/EngineItems.lean`, `Lemmas/EngineSwap.lean`.
 -/
-import PybtexModel.Lemmas.Engine
+import PybtexModel.Lemmas.EngineSwap
 
 namespace Pybtex.Props
 open Pybtex Pybtex.Interp Pybtex.Engine
@@ -125,11 +125,11 @@ own reports attached; a failure of the reader (fatal `AuxDataError`, unreadable 
 failure of the run; a failure of the explicit call is the failure of the run. -/
 theorem C06_aux_equiv (files : Files) (aux : Str) (fuel : Nat) (mc : Int) :
     (∀ a, Aux.parse files.aux fuel aux = .error a →
-        makeBibliography files aux fuel none ".bib".toList mc none = .error (.aux a)) ∧
+        makeBibliography files aux fuel none none mc = .error (.aux a)) ∧
     (∀ st, Aux.parse files.aux fuel aux = .ok st →
         ∃ style data, st.style = some style ∧ st.data = some data ∧
-          makeBibliography files aux fuel none ".bib".toList mc none =
-            (formatFromFiles files (data.map (· ++ ".bib".toList)) style st.citations mc none).map
+          makeBibliography files aux fuel none none mc =
+            (formatFromFiles files (data.map fun d => .file (d ++ ".bib".toList)) style st.citations mc none).map
               (fun r => (r, st.reports))) := by
   constructor
   · intro a h
@@ -137,15 +137,15 @@ theorem C06_aux_equiv (files : Files) (aux : Str) (fuel : Nat) (mc : Int) :
   · intro st h
     obtain ⟨⟨style, hs⟩, ⟨data, hd⟩⟩ := parse_ok_style_data _ _ _ _ h
     refine ⟨style, data, hs, hd, ?_⟩
-    simp only [makeBibliography, h, hs, hd, Option.getD_none]
-    cases formatFromFiles files (data.map (· ++ ".bib".toList)) style st.citations mc none <;> rfl
+    simp only [makeBibliography, h, hs, hd, Option.getD_none, bibtexFormat, bibSrcs]
+    cases formatFromFiles files (data.map fun d => Src.file (d ++ ".bib".toList)) style st.citations mc none <;> rfl
 
 theorem C06_aux_equiv_nonvacuous :
     auxView (Aux.parse files.aux 3 (s "/D/doc.aux")) = some (some (s "/D/s"), some [s "/D/refs"], [s "a", s "b"]) ∧
-    bbl (makeBibliography files (s "/D/doc.aux") 3 none (s ".bib") 2 none) (·.1) = some (s "a\nb\n") ∧
-    bbl (formatFromFiles files [s "/D/refs.bib"] (s "/D/s") [s "a", s "b"] 2 none) id = some (s "a\nb\n") ∧
+    bbl (makeBibliography files (s "/D/doc.aux") 3 none none 2) (·.1) = some (s "a\nb\n") ∧
+    bbl (formatFromFiles files [.file (s "/D/refs.bib")] (s "/D/s") [s "a", s "b"] 2 none) id = some (s "a\nb\n") ∧
     -- an unreadable `.aux` file is the error of the run
-    auxFatal (makeBibliography files (s "/D/nope.aux") 3 none (s ".bib") 2 none) = some (.cannotOpen (s "/D/nope.aux")) := by
+    auxFatal (makeBibliography files (s "/D/nope.aux") 3 none none 2) = some (.cannotOpen (s "/D/nope.aux")) := by
   decide +kernel
 
 /-- An explicitly requested style or database format overrides what the `.aux` file or the
@@ -154,19 +154,19 @@ default says.
 (the right-hand side does not mention the style of the `.aux` file); the reader's suffix and
 database are passed on.
 (2) With a `bib_format` reader (database `db`) the explicit call does not depend on the names or
-the contents of the `.bib` files (`readTexts` is not called; only the `.bst` file is read) …
+the contents of the `.bib` files (no source is opened; only the `.bst` file is read) …
 (3) … nor does the interpreter look at `.bib` texts, whatever they are …
 (4) … because `READ` stores the reader's database. -/
 theorem C06_overrides (files : Files) (aux : Str) (fuel : Nat) (mc : Int) :
     (∀ st, Aux.parse files.aux fuel aux = .ok st →
-        ∃ data, st.data = some data ∧ ∀ s' suffix alt,
-          makeBibliography files aux fuel (some s') suffix mc alt =
-            (formatFromFiles files (data.map (· ++ suffix)) s' st.citations mc alt).map
+        ∃ data, st.data = some data ∧ ∀ s' (fmt : Format),
+          makeBibliography files aux fuel (some s') (some fmt) mc =
+            (formatFromFiles files (data.map fun d => .file (d ++ fmt.suffix)) s' st.citations mc fmt.alt).map
               (fun r => (r, st.reports))) ∧
-    (∀ (files' : Files) names names' style cites db,
+    (∀ (files' : Files) srcs srcs' style cites db,
         files'.text (style ++ ".bst".toList) = files.text (style ++ ".bst".toList) →
-        formatFromFiles files names style cites mc (some db) =
-          formatFromFiles files' names' style cites mc (some db)) ∧
+        formatFromFiles files srcs style cites mc (some db) =
+          formatFromFiles files' srcs' style cites mc (some db)) ∧
     (∀ rfuel prog ts ts' cites db,
         run rfuel prog { bibTexts := ts, citations := cites, minCrossrefs := mc, alt := some db } =
           run rfuel prog { bibTexts := ts', citations := cites, minCrossrefs := mc, alt := some db }) ∧
@@ -176,11 +176,11 @@ theorem C06_overrides (files : Files) (aux : Str) (fuel : Nat) (mc : Int) :
   · intro st h
     obtain ⟨⟨style, hs⟩, ⟨data, hd⟩⟩ := parse_ok_style_data _ _ _ _ h
     refine ⟨data, hd, ?_⟩
-    intro s' suffix alt
-    simp only [makeBibliography, h, hs, hd, Option.getD_some]
-    cases formatFromFiles files (data.map (· ++ suffix)) s' st.citations mc alt <;> rfl
-  · intro files' names names' style cites db ht
-    simp only [formatFromFiles, ht]
+    intro s' fmt
+    simp only [makeBibliography, h, hs, hd, Option.getD_some, bibSrcs]
+    cases formatFromFiles files (data.map fun d => Src.file (d ++ fmt.suffix)) s' st.citations mc fmt.alt <;> rfl
+  · intro files' srcs srcs' style cites db ht
+    simp only [formatFromFiles, interpreterRun, ht, runProgramF_alt runFuel files files' srcs srcs' cites mc db]
   · intro rfuel prog ts ts' cites db
     exact run_alt rfuel ts ts' cites mc db prog
   · intro rfuel inp c s es pre hc ha
@@ -189,11 +189,11 @@ theorem C06_overrides (files : Files) (aux : Str) (fuel : Nat) (mc : Int) :
 
 theorem C06_overrides_nonvacuous :
     -- `\bibstyle{/D/s}` (citation order) overridden by the sorting style `/D/t`
-    bbl (makeBibliography files (s "/D/doc.aux") 3 (some (s "/D/t")) (s ".bib") 2 none) (·.1) = some (s "b\na\n") ∧
-    bbl (formatFromFiles files [s "/D/refs.bib"] (s "/D/t") [s "a", s "b"] 2 none) id = some (s "b\na\n") ∧
+    bbl (makeBibliography files (s "/D/doc.aux") 3 (some (s "/D/t")) none 2) (·.1) = some (s "b\na\n") ∧
+    bbl (formatFromFiles files [.file (s "/D/refs.bib")] (s "/D/t") [s "a", s "b"] 2 none) id = some (s "b\na\n") ∧
     -- a `bib_format` reader: `/D/refs.yaml` is not among the texts, the reader's database is used
-    bbl (makeBibliography files (s "/D/doc.aux") 3 none (s ".yaml") 2 (some altDb)) (·.1) = some (s "a\nb\n") ∧
-    cannotOpen (makeBibliography files (s "/D/doc.aux") 3 none (s ".yaml") 2 none) = some (s "/D/refs.yaml") := by
+    bbl (makeBibliography files (s "/D/doc.aux") 3 none (some ⟨s ".yaml", some altDb⟩) 2) (·.1) = some (s "a\nb\n") ∧
+    cannotOpen (makeBibliography files (s "/D/doc.aux") 3 none (some ⟨s ".yaml", none⟩) 2) = some (s "/D/refs.yaml") := by
   decide +kernel
 
 /-! ### 2. frame: after `READ` the database matters only through the view of the cited keys
@@ -353,8 +353,8 @@ theorem C06_frame_run_nonvacuous :
     run 100 ([] ++ rdEx :: postEx) inp1 = run 100 ([] ++ rdEx :: postEx) inp2 ∧
     (match run 100 ([] ++ rdEx :: postEx) inp1 with | .ok o => some o.bbl | .error _ => none) = some (s "a\nb\n") ∧
     -- the same on `.bib` text: an uncited entry added, the cited ones in the other order
-    bbl (formatFromFiles files [s "/D/refs2.bib"] (s "/D/s") [s "a", s "b"] 2 none) id =
-      bbl (formatFromFiles files [s "/D/refs.bib"] (s "/D/s") [s "a", s "b"] 2 none) id := by
+    bbl (formatFromFiles files [.file (s "/D/refs2.bib")] (s "/D/s") [s "a", s "b"] 2 none) id =
+      bbl (formatFromFiles files [.file (s "/D/refs.bib")] (s "/D/s") [s "a", s "b"] 2 none) id := by
   have hres : ((convertDb (readParsed inp1 S0).db).removeMissing
       ((convertDb (readParsed inp1 S0).db).addExtraCitations S0.citations inp1.minCrossrefs).1).1 = [s "a", s "b"] := by
     decide +kernel
@@ -506,9 +506,9 @@ theorem C06_one_item_per_citation_nonvacuous :
     (∀ st k st', InvEx st → execObj 10 fEx { st with cur := some k } = .ok st' →
       InvEx { st' with cur := none } ∧ st'.lines = st.lines ++ itemEx k) ∧
     (∀ st cits, InvEx st → InvEx { st with citations := cits }) ∧
-    bbl (formatFromFiles files [s "/D/refs.bib"] (s "/D/s") [s "a", s "b"] 2 none) id = some (s "a\nb\n") ∧
-    bbl (formatFromFiles files [s "/D/refs.bib"] (s "/D/r") [s "a", s "b"] 2 none) id = some (s "b\na\n") ∧
-    bbl (formatFromFiles files [s "/D/refs.bib"] (s "/D/t") [s "a", s "b"] 2 none) id = some (s "b\na\n") ∧
+    bbl (formatFromFiles files [.file (s "/D/refs.bib")] (s "/D/s") [s "a", s "b"] 2 none) id = some (s "a\nb\n") ∧
+    bbl (formatFromFiles files [.file (s "/D/refs.bib")] (s "/D/r") [s "a", s "b"] 2 none) id = some (s "b\na\n") ∧
+    bbl (formatFromFiles files [.file (s "/D/refs.bib")] (s "/D/t") [s "a", s "b"] 2 none) id = some (s "b\na\n") ∧
     sortByKey [(s "Z", s "a"), (s "Y", s "b"), (s "Z", s "c")] = [(s "Y", s "b"), (s "Z", s "a"), (s "Z", s "c")] := by
   refine ⟨?_, fun st cits h => h, by decide +kernel, by decide +kernel, by decide +kernel, by decide +kernel⟩
   intro st k st' h hrun
@@ -522,5 +522,482 @@ theorem C06_sort_order_total (a b c : Str) :
     strLt a a = false ∧ (strLt a b = true → strLt b c = true → strLt a c = true) ∧
     (strLt a b = false → strLt b a = false → a = b) :=
   ⟨strLt_irrefl a, strLt_trans, strLt_total⟩
+
+/-! ### 4. the reader plug-in, the entry points, and when the outside world is touched -/
+
+/-- `bib_format` selects the suffix AND the reader, together: for every reader plug-in `fmt` the
+run is the explicit call on the `\bibdata` names with `fmt`'s suffix, with `fmt`'s reader (its
+database `fmt.alt`; `none` = the BibTeX reader working on the text); without `bib_format` it is
+the run with the BibTeX reader (suffix `.bib`).  There is no way to get the suffix of one reader
+and the database of another. -/
+theorem C06_bib_format_selects (files : Files) (aux : Str) (fuel : Nat) (mc : Int) (so : Option Str) :
+    (∀ st, Aux.parse files.aux fuel aux = .ok st →
+      ∃ style data, st.style = some style ∧ st.data = some data ∧
+        ∀ fmt : Format, makeBibliography files aux fuel so (some fmt) mc =
+          (formatFromFiles files (data.map fun d => .file (d ++ fmt.suffix)) (so.getD style) st.citations mc fmt.alt).map
+            (fun r => (r, st.reports))) ∧
+    makeBibliography files aux fuel so none mc = makeBibliography files aux fuel so (some bibtexFormat) mc ∧
+    bibtexFormat.suffix = ".bib".toList ∧ bibtexFormat.alt = none := by
+  refine ⟨?_, rfl, rfl, rfl⟩
+  intro st h
+  obtain ⟨⟨style, hs⟩, ⟨data, hd⟩⟩ := parse_ok_style_data _ _ _ _ h
+  refine ⟨style, data, hs, hd, ?_⟩
+  intro fmt
+  simp only [makeBibliography, h, hs, hd, Option.getD_some, bibSrcs]
+  cases formatFromFiles files (data.map fun d => Src.file (d ++ fmt.suffix)) (so.getD style) st.citations mc fmt.alt <;> rfl
+
+/-- a reader that delivers only the entry `b`: its database is used, although `/D/refs.bib`
+exists and holds both entries; with the same suffix and no reader database the file is missing -/
+theorem C06_bib_format_selects_nonvacuous :
+    bbl (makeBibliography files (s "/D/doc.aux") 3 none (some ⟨s ".yaml", some ([ent "b" "Y"], [])⟩) 2) (·.1) = some (s "b\n") ∧
+    bbl (makeBibliography files (s "/D/doc.aux") 3 none (some ⟨s ".bib", none⟩) 2) (·.1) = some (s "a\nb\n") ∧
+    cannotOpen (makeBibliography files (s "/D/doc.aux") 3 none (some ⟨s ".yaml", none⟩) 2) = some (s "/D/refs.yaml") := by
+  decide +kernel
+
+/-- The entry points named in the quantifier are one function.  `format_from_files` on file names
+whose files hold the texts `texts` is `format_from_strings(texts)` (same `.bbl`, reports, printed
+output, or the same error); `format_from_string(t)` is `format_from_strings([t])`;
+`format_from_file(n)` is `format_from_string` of the text of `n`. -/
+theorem C06_entry_points (files : Files) (style : Str) (cits : List Str) (mc : Int)
+    (alt : Option (List (Str × Bib.Entry) × List Str)) :
+    (∀ names texts, List.Forall₂ (fun n t => files.text n = some t) names texts →
+      formatFromFiles files (names.map .file) style cits mc alt = formatFromStrings files texts style cits mc alt) ∧
+    (∀ t, formatFromString files t style cits mc alt = formatFromStrings files [t] style cits mc alt) ∧
+    (∀ n t, files.text n = some t →
+      formatFromFile files n style cits mc alt = formatFromString files t style cits mc alt) := by
+  refine ⟨?_, fun _ => rfl, ?_⟩
+  · intro names texts h
+    exact formatFromFiles_srcs files _ _ style cits mc alt ((readSrcs_file files names texts h).trans (readSrcs_text files texts).symm)
+  · intro n t h
+    have h2 : List.Forall₂ (fun n t => files.text n = some t) [n] [t] := .cons h .nil
+    exact formatFromFiles_srcs files _ _ style cits mc alt ((readSrcs_file files [n] [t] h2).trans (readSrcs_text files [t]).symm)
+
+theorem C06_entry_points_nonvacuous :
+    files.text (s "/D/refs.bib") = some bib ∧
+    bbl (formatFromString files bib (s "/D/t") [s "a", s "b"] 2 none) id = some (s "b\na\n") ∧
+    bbl (formatFromFile files (s "/D/refs.bib") (s "/D/t") [s "a", s "b"] 2 none) id = some (s "b\na\n") ∧
+    -- two strings: one database
+    bbl (formatFromStrings files [s "@misc{b, title = {Y}}\n", s "@misc{a, title = {Z}}\n"] (s "/D/s") [s "a", s "b"] 2 none) id =
+      some (s "a\nb\n") := by
+  decide +kernel
+
+namespace C06Ex
+/-- styles that never read, raise before `READ`, or have a syntax error behind executed commands -/
+def files2 : Files :=
+  { aux := fun _ => none,
+    text := fun p =>
+      if p = s "/D/n.bst" then some (s "ENTRY {}{}{} FUNCTION {f} {\"x\" write$ newline$} EXECUTE {f}")
+      else if p = s "/D/x.bst" then some (s "ENTRY {}{}{} FUNCTION {f} {pop$} EXECUTE {f} READ")
+      else if p = s "/D/y.bst" then some (s "ENTRY {}{}{} FUNCTION {f} {\"x\" write$ newline$} EXECUTE {f} BOGUS {x}")
+      else if p = s "/D/z.bst" then some (s "ENTRY {}{}{} FUNCTION {f} {pop$} EXECUTE {f} BOGUS {x}")
+      else if p = s "/D/s.bst" then some bst
+      else none }
+
+def errView (r : Except Err Result) : Option String :=
+  match r with
+  | .ok _ => none
+  | .error (.run (.bibtex m)) => some m
+  | .error (.cannotOpen _) => some "cannot open"
+  | .error .bstSyntax => some "bst syntax"
+  | .error _ => some "other"
+
+def okView {α : Type} (r : Except Err α) : Option α :=
+  match r with
+  | .ok x => some x
+  | .error _ => none
+
+def jobEx : Job := ⟨files2, [.file (s "/D/none.bib")], [], 2, none⟩
+end C06Ex
+
+/-- The outside world is touched when the code touches it.
+(1) Nothing is opened before `READ`: a `READ`-free stretch `pre` of the script runs as in the
+interpreter, whatever the database sources are — so a style without `READ` never needs them, and
+an error raised before `READ` is the error of the run even when the files are missing.
+(2) `READ` opens the sources: a missing file is the error of the run (`cannotOpen`), otherwise
+`READ` runs on the texts.
+(3) A command without a `command_…` method is printed (`Unknown command <name>`) and skipped. -/
+theorem C06_files_opened_by_read (fuel : Nat) (j : Job) :
+    (∀ (inp : Input) (pre rest : Bst.Program) (st : St),
+      (∀ c ∈ pre, upper c.name ≠ "READ".toList) → (∀ c ∈ pre, knownCommand c.name = true) →
+      runProgramF fuel j (pre ++ rest) st =
+        match runProgram fuel inp pre st with
+        | .error e => .error (.run e)
+        | .ok st' => runProgramF fuel j rest st') ∧
+    (∀ (c : Bst.Command) (st : St), upper c.name = "READ".toList →
+      stepF fuel j c st =
+        match readInput j with
+        | .error e => .error e
+        | .ok ts => liftRun (runCommand fuel (j.input ts) c st)) ∧
+    (∀ (c : Bst.Command) (st : St), knownCommand c.name = false →
+      stepF fuel j c st = .ok { st with printed := st.printed ++ ["Unknown command ".toList ++ c.name] }) := by
+  refine ⟨?_, ?_, ?_⟩
+  · intro inp pre rest st hn hk
+    exact runProgramF_append_noread fuel j inp pre rest st hn hk
+  · intro c st h
+    simp only [stepF, h, if_true]
+    cases readInput j <;> rfl
+  · intro c st h
+    have h1 : upper c.name ≠ "READ".toList := fun hr => by rw [known_of_read hr] at h; cases h
+    simp only [stepF, h1, h, if_false, Bool.false_eq_true]
+
+/-- the four miniature styles on a MISSING database file: no `READ` — output; an error before
+`READ` — that error; a syntax error behind executed commands — it surfaces after they ran (the
+script is parsed lazily), unless they raised first; a style with `READ` — cannot open; an unknown
+command is printed and skipped -/
+theorem C06_files_opened_by_read_nonvacuous :
+    bbl (formatFromFiles files2 [.file (s "/D/none.bib")] (s "/D/n") [] 2 none) id = some (s "x\n") ∧
+    errView (formatFromFiles files2 [.file (s "/D/none.bib")] (s "/D/x") [] 2 none) = some "pop from empty stack" ∧
+    errView (formatFromFiles files2 [.file (s "/D/none.bib")] (s "/D/y") [] 2 none) = some "bst syntax" ∧
+    errView (formatFromFiles files2 [.file (s "/D/none.bib")] (s "/D/z") [] 2 none) = some "pop from empty stack" ∧
+    errView (formatFromFiles files2 [.file (s "/D/none.bib")] (s "/D/s") [] 2 none) = some "cannot open" ∧
+    (match interpreterRun 100 jobEx [⟨s "Frobnicate", []⟩] with | .ok r => some r.printed | .error _ => none) =
+      some [s "Unknown command Frobnicate"] := by
+  decide +kernel
+
+/-- The frame theorem at the level of the entry point (`C06_frame_run` through the bridge
+`formatFromFiles_eq_run`): two explicit calls with the same style (which parses to
+`pre; READ; post`, no other `READ`), citations and `min_crossrefs` on two file systems / source
+lists whose texts are `ts₁`, `ts₂`: if the two `READ` steps leave states that differ in the
+database only and the databases agree on the resolved citations, the calls return the same
+`.bbl`, reports and printed output, or the same error. -/
+theorem C06_frame_files (files₁ files₂ : Files) (srcs₁ srcs₂ : List Src) (style : Str) (cits : List Str) (mc : Int)
+    (bstText : Str) (ts₁ ts₂ : List Str) (pre post : Bst.Program) (rd : Bst.Command)
+    (hb₁ : files₁.text (style ++ ".bst".toList) = some bstText) (hb₂ : files₂.text (style ++ ".bst".toList) = some bstText)
+    (hp : Bst.parseFile bstText = .ok (pre ++ rd :: post))
+    (hr₁ : readSrcs files₁ srcs₁ = .ok ts₁) (hr₂ : readSrcs files₂ srcs₂ = .ok ts₂)
+    (hpre : ∀ c ∈ pre, upper c.name ≠ "READ".toList) (hrd : upper rd.name = "READ".toList)
+    (hpost : ∀ c ∈ post, upper c.name ≠ "READ".toList)
+    (hread : ∀ st, runProgram runFuel { bibTexts := ts₁, citations := cits, minCrossrefs := mc } pre
+          { vars := initVars, citations := cits } = .ok st →
+      ∃ s₁ db₁ db₂, runCommand runFuel { bibTexts := ts₁, citations := cits, minCrossrefs := mc } rd st = .ok s₁ ∧
+        s₁.db = some db₁ ∧
+        runCommand runFuel { bibTexts := ts₂, citations := cits, minCrossrefs := mc } rd st = .ok (setDb db₂ [] s₁) ∧
+        Agree s₁.citations db₁ db₂) :
+    formatFromFiles files₁ srcs₁ style cits mc none = formatFromFiles files₂ srcs₂ style cits mc none := by
+  rw [formatFromFiles_eq_run files₁ srcs₁ style cits mc none bstText _ ts₁ hb₁ hp (by simpa [readInput] using hr₁),
+    formatFromFiles_eq_run files₂ srcs₂ style cits mc none bstText _ ts₂ hb₂ hp (by simpa [readInput] using hr₂)]
+  exact congrArg ofRun (C06_frame_run runFuel _ _ pre post rd rfl hpre hrd hpost hread)
+
+/-- the tiny style on the two `.bib` files of the examples (an uncited entry added, the cited ones
+in the other order): the texts are read, the style parses to `[] ++ READ :: post`-shape -/
+theorem C06_frame_files_nonvacuous :
+    okView (readSrcs files [.file (s "/D/refs.bib")]) = some [bib] ∧
+    okView (readSrcs files [.file (s "/D/refs2.bib")]) = some [bib2] ∧
+    (match Bst.parseFile C06Ex.bst with | .ok p => p.map (fun c => upper c.name) | .error _ => []) =
+      [s "ENTRY", s "FUNCTION", s "READ", s "ITERATE"] ∧
+    bbl (formatFromFiles files [.file (s "/D/refs2.bib")] (s "/D/s") [s "a", s "b"] 2 none) id =
+      bbl (formatFromFiles files [.file (s "/D/refs.bib")] (s "/D/s") [s "a", s "b"] 2 none) id := by
+  decide +kernel
+
+/-! ### 5. the order clauses for the shape of the shipped styles -/
+
+/-- The order clauses for the command skeleton of the real styles: between `READ` / `SORT` and the
+`ITERATE` that writes the items there are other commands (`STRINGS`, `INTEGERS`, `FUNCTION`,
+`EXECUTE {begin.bib}`, `ITERATE {longest.label.pass}`, `REVERSE {reverse.pass}` …).  Let `mid`
+contain neither `READ` nor `SORT`, let `c = ITERATE {f}` and `f` append exactly `item k` per call
+under an invariant `Inv` (as in `C06_one_item_per_citation`).
+(1) Every command other than `READ` and `SORT` — in particular `ITERATE` and `REVERSE` over any
+function — leaves the citation list and the database as they are.
+(2) `mid; ITERATE {f}` from a state `st`: `mid` ends in a state `sm` with the citations of `st`, and
+the items are appended to the output of `mid` in citation order.
+(3) `SORT; mid; ITERATE {f}`: the items are appended in the order of `sortByKey` applied to the
+citations of `st` paired with their `sort.key$` at the time of the `SORT` — a permutation, ascending
+by key, ties in the order they had before the `SORT` (for the first `SORT` after `READ`: citation
+order).  A style with several `SORT`s (jurabib, apacite) is covered by applying (3) to its last
+`SORT` and (1)/(3) to what precedes. -/
+theorem C06_order_general (fuel : Nat) (inp : Input) (f : VarObj) (Inv : St → Prop)
+    (item : Str → List Str)
+    (hf : ∀ s k s', Inv s → execObj fuel f { s with cur := some k } = .ok s' →
+      Inv { s' with cur := none } ∧ s'.lines = s.lines ++ item k)
+    (mid : Bst.Program) (hmid : ∀ m ∈ mid, upper m.name ≠ "READ".toList ∧ upper m.name ≠ "SORT".toList)
+    (c : Bst.Command) (t : BTok) (rest : List BTok) (fname : Str)
+    (hc : upper c.name = "ITERATE".toList) (hg : c.groups = [t :: rest]) (ht : tokName t = .ok fname) :
+    (∀ (m : Bst.Command) (st st' : St), upper m.name ≠ "READ".toList → upper m.name ≠ "SORT".toList →
+      runCommand fuel inp m st = .ok st' → st'.citations = st.citations ∧ st'.db = st.db) ∧
+    (∀ st st', runProgram fuel inp (mid ++ [c]) st = .ok st' →
+      ∃ sm, runProgram fuel inp mid st = .ok sm ∧ sm.citations = st.citations ∧
+        (Inv sm → sm.vars.getItem fname = some f → st'.lines = sm.lines ++ st.citations.flatMap item)) ∧
+    (∀ (sortc : Bst.Command) st st', upper sortc.name = "SORT".toList →
+      runProgram fuel inp (sortc :: mid ++ [c]) st = .ok st' →
+      ∃ (l : List (Str × Str)) (sm : St), l.map (·.2) = st.citations ∧ (∀ p ∈ l, sortKeyOf st p.2 = some p.1) ∧
+        runProgram fuel inp (sortc :: mid) st = .ok sm ∧ sm.citations = (sortByKey l).map (·.2) ∧
+        (Inv sm → sm.vars.getItem fname = some f →
+          st'.lines = sm.lines ++ ((sortByKey l).map (·.2)).flatMap item) ∧
+        (sortByKey l).Perm l ∧
+        (sortByKey l).Pairwise (fun a b => strLt b.1 a.1 = false) ∧
+        (∀ κ, (sortByKey l).filter (fun p => p.1 = κ) = l.filter (fun p => p.1 = κ))) := by
+  have hstep : ∀ (sm st' : St), runCommand fuel inp c sm = .ok st' → Inv sm → sm.vars.getItem fname = some f →
+      st'.lines = sm.lines ++ sm.citations.flatMap item := by
+    intro sm st' h hi hv
+    rw [runCommand_iterate fuel inp c sm hc] at h
+    simp only [iterStep, hg, ht, hv] at h
+    exact (iterate_items fuel f Inv item hf _ sm st' hi h).2
+  refine ⟨?_, ?_, ?_⟩
+  · intro m st st' h1 h2 h
+    have := runCommand_keepC fuel inp m st h1 h2
+    rw [h] at this
+    exact ⟨this.2, this.1⟩
+  · intro st st' h
+    obtain ⟨sm, h1, h2⟩ := runProgram_snoc_ok fuel inp mid c st st' h
+    have hk := runProgram_keepC fuel inp mid st hmid
+    rw [h1] at hk
+    refine ⟨sm, h1, hk.2, ?_⟩
+    intro hi hv
+    rw [← hk.2]
+    exact hstep sm st' h2 hi hv
+  · intro sortc st st' hs h
+    rw [show sortc :: mid ++ [c] = (sortc :: mid) ++ [c] from rfl] at h
+    obtain ⟨sm, h1, h2⟩ := runProgram_snoc_ok fuel inp (sortc :: mid) c st st' h
+    have h1' := h1
+    simp only [runProgram] at h1
+    cases hsr : runCommand fuel inp sortc st with
+    | error e => rw [hsr] at h1; cases h1
+    | ok s1 =>
+      rw [hsr] at h1
+      obtain ⟨l, hl1, hl2, rfl⟩ := runCommand_sort_ok fuel inp sortc st s1 hs hsr
+      dsimp only at h1
+      have hk := runProgram_keepC fuel inp mid { st with citations := (sortByKey l).map (·.2) } hmid
+      rw [h1] at hk
+      obtain ⟨p1, p2, p3⟩ := sortByKey_spec l
+      refine ⟨l, sm, hl1, hl2, h1', hk.2, ?_, p1, p2, p3⟩
+      intro hi hv
+      have := hstep sm st' h2 hi hv
+      rw [hk.2] at this
+      exact this
+
+/-- a sorting style with commands between `SORT` and the writing `ITERATE`, as plain.bst has:
+`READ ITERATE {k} SORT STRINGS {x} ITERATE {k} REVERSE {k} ITERATE {f}` gives the keys in sort-key
+order; its `mid` satisfies the hypothesis -/
+theorem C06_order_general_nonvacuous :
+    (match Bst.parseFile (s "ENTRY {title}{}{} FUNCTION {k} {title 'sort.key$ :=} FUNCTION {f} {cite$ write$ newline$} READ ITERATE {k} SORT STRINGS {x} ITERATE {k} REVERSE {k} ITERATE {f}") with
+     | .ok p => (p.drop 6).dropLast.all (fun m => upper m.name ≠ s "READ" ∧ upper m.name ≠ s "SORT") && (p.drop 6).length == 4
+     | .error _ => false) = true ∧
+    (match run 1000 (match Bst.parseFile (s "ENTRY {title}{}{} FUNCTION {k} {title 'sort.key$ :=} FUNCTION {f} {cite$ write$ newline$} READ ITERATE {k} SORT STRINGS {x} ITERATE {k} REVERSE {k} ITERATE {f}") with | .ok p => p | .error _ => [])
+        { bibTexts := [bib], citations := [s "a", s "b"] } with
+     | .ok o => some o.bbl
+     | .error _ => none) = some (s "b\na\n") := by
+  decide +kernel
+
+/-- Instantiation of "one item per citation" for the `output.bibitem … fin.entry` skeleton of
+unsrt.bst / plain.bst (every entry-type function begins with `output.bibitem`, whose body begins
+`newline$ "\bibitem{" write$ cite$ write$ "}" write$ newline$`).
+(1) One call: if `newline$`, `write$`, `cite$` are the built-ins and `output.bibitem` is bound to a
+function beginning with that prologue, a function body `output.bibitem rest…` run for the entry
+`k` appends lines that START with the pending output line and `\bibitem{k}`, whatever `rest`
+does (the output only grows).
+(2) `ITERATE` over such a function `f`, under an invariant the style maintains (the bindings stay,
+every entry ends with `newline$`, i.e. an empty buffer; between two calls no entry is current): the output is the old output followed, for
+each resolved citation in order, by `\bibitem{k}` and that entry's further lines — exactly one
+`\bibitem` block per citation, in citation order. -/
+theorem C06_item_starts_with_bibitem (fuel : Nat) (obTail rest : List BTok) :
+    (∀ (st st' : St) (k : Str), StdOut st.vars →
+      st.vars.getItem "output.bibitem".toList = some (.func (bibitemHead ++ obTail)) → st.cur = some k →
+      execBody fuel (.name "output.bibitem".toList :: rest) st = .ok st' →
+      ∃ more, st'.lines = st.lines ++ bibitemLines st.buffer k ++ more) ∧
+    (∀ (Inv : St → Prop),
+      (∀ st, Inv st → StdOut st.vars ∧
+        st.vars.getItem "output.bibitem".toList = some (.func (bibitemHead ++ obTail)) ∧ st.buffer = []) →
+      (∀ st k st', Inv st →
+        execObj fuel (.func (.name "output.bibitem".toList :: rest)) { st with cur := some k } = .ok st' →
+        Inv { st' with cur := none }) →
+      ∀ (keys : List Str) (st st' : St), Inv st →
+        iterate fuel (.func (.name "output.bibitem".toList :: rest)) keys st = .ok st' →
+        ∃ mores : List (List Str), mores.length = keys.length ∧
+          st'.lines = st.lines ++ (List.zipWith (fun k more => bibitemLines [] k ++ more) keys mores).flatten) := by
+  have one : ∀ (n : Nat) (st st' : St) (k : Str), StdOut st.vars →
+      st.vars.getItem "output.bibitem".toList = some (.func (bibitemHead ++ obTail)) → st.cur = some k →
+      execBody n (.name "output.bibitem".toList :: rest) st = .ok st' →
+      ∃ more, st'.lines = st.lines ++ bibitemLines st.buffer k ++ more := by
+    intro n st st' k hv hob hcur h
+    obtain ⟨n1, s1, -, t1, h⟩ := execBody_cons_ok h
+    obtain ⟨m, -, t1⟩ := execTok_name_ok hob t1
+    cases m with
+    | zero => cases t1
+    | succ m' =>
+      have t1' : execBody m' (bibitemHead ++ obTail) st = .ok s1 := t1
+      obtain ⟨n2, t2⟩ := bibitemHead_run m' obTail st s1 k hv hcur t1'
+      obtain ⟨m1, q1⟩ := execBody_ext t2
+      obtain ⟨m2, q2⟩ := execBody_ext h
+      exact ⟨m1 ++ m2, by rw [q2, q1, List.append_assoc]⟩
+  refine ⟨fun st st' k => one fuel st st' k, ?_⟩
+  intro Inv hInv hkeep keys
+  induction keys with
+  | nil =>
+    intro st st' _ h
+    simp only [iterate] at h
+    cases h
+    exact ⟨[], rfl, by simp⟩
+  | cons k ks ih =>
+    intro st st' hi h
+    simp only [iterate] at h
+    split at h
+    · cases h
+    · split at h
+      · cases h
+      · split at h
+        · cases h
+        · rename_i s1 h1
+          obtain ⟨hv, hob, hbuf⟩ := hInv st hi
+          have hi1 := hkeep st k s1 hi h1
+          obtain ⟨mores, hlen, hl⟩ := ih { s1 with cur := none } st' hi1 h
+          cases fuel with
+          | zero => cases h1
+          | succ n =>
+            have h1' : execBody n (.name "output.bibitem".toList :: rest) { st with cur := some k } = .ok s1 := h1
+            obtain ⟨more, hm⟩ := one n { st with cur := some k } s1 k hv hob rfl h1'
+            refine ⟨more :: mores, by simp [hlen], ?_⟩
+            rw [hl]
+            show s1.lines ++ _ = _
+            rw [hm]
+            simp only [hbuf, List.zipWith_cons_cons, List.flatten_cons, List.append_assoc]
+
+/-- the hypotheses of (1) hold in the state the interpreter is in when a style with the standard
+`output.bibitem` calls an entry function; the appended lines start with `\bibitem{a}` -/
+theorem C06_item_starts_with_bibitem_nonvacuous :
+    (match run 1000 (match Bst.parseFile (s "ENTRY {title}{}{} INTEGERS {output.state before.all} FUNCTION {output.bibitem} {newline$ \"\\bibitem{\" write$ cite$ write$ \"}\" write$ newline$ \"\" before.all 'output.state :=} FUNCTION {misc} {output.bibitem title write$ newline$} READ ITERATE {call.type$}") with | .ok p => p | .error _ => [])
+        { bibTexts := [bib], citations := [s "a", s "b"] } with
+     | .ok o => some o.bbl
+     | .error _ => none) = some (s "\n\\bibitem{a}\nZ\n\n\\bibitem{b}\nY\n") ∧
+    bibitemLines [] (s "a") = [[], ['\n'], s "\\bibitem{a}", ['\n']] := by
+  decide +kernel
+
+/-! ### 6. the database file is reordered -/
+
+/-- "The output does not change when the database file is reordered", at the `READ` step.  Two
+readings (two `.bib` texts, two reader entry lists, …) that deliver databases holding THE SAME
+ENTRY UNDER EVERY KEY — in whatever order the entries were met — with the same preamble and reader
+reports: if no `*` is cited (with `*` the order of the file IS the citation order), the two `READ`
+steps resolve the same citations with the same reports and leave states that differ in the
+database only, and the databases agree on the resolved citations: the hypothesis `hread` of
+`C06_frame_run` / `C06_frame_files`, hence equal runs.  (That a reordered file delivers the same
+entry under every key needs the ordering proviso of C05 — a cross-referenced parent that is not
+cited must follow its children, or it is filtered out — which is why it is a hypothesis here.) -/
+theorem C06_frame_reordered (fuel : Nat) (inp₁ inp₂ : Input) (rd : Bst.Command) (st : St)
+    (hrd : upper rd.name = "READ".toList) (hmc : inp₂.minCrossrefs = inp₁.minCrossrefs)
+    (hpre : (readParsed inp₂ st).db.preamble.flatten = (readParsed inp₁ st).db.preamble.flatten)
+    (herr : (readParsed inp₂ st).errs.map Report.bib = (readParsed inp₁ st).errs.map Report.bib)
+    (hget : ∀ k, (convertDb (readParsed inp₁ st).db).entries.getItem k =
+      (convertDb (readParsed inp₂ st).db).entries.getItem k)
+    (hns : ∀ c ∈ st.citations, c ≠ star) :
+    ∃ s₁ db₁ db₂, runCommand fuel inp₁ rd st = .ok s₁ ∧ s₁.db = some db₁ ∧
+      runCommand fuel inp₂ rd st = .ok (setDb db₂ [] s₁) ∧ Agree s₁.citations db₁ db₂ := by
+  have hx := addExtraCitations_congr _ _ hget st.citations inp₁.minCrossrefs hns
+  refine C06_frame_read fuel inp₁ inp₂ rd st hrd hpre herr (by rw [hmc, hx]) ?_ ?_
+  · exact (removeMissing_congr _ _ hget _).symm
+  · refine C06_frame_closure (fun _ => True) _ _ _ (fun k _ => hget k) (fun _ _ _ _ _ _ => trivial) ?_
+    intro k hk
+    exact ⟨trivial, removeMissing_mem _ _ k hk⟩
+
+/-- the two example readers (entries `a b` resp. `noise b a`, `noise` uncited) deliver the same
+entry under every key, in different orders -/
+theorem C06_frame_reordered_nonvacuous :
+    (∀ k, db1.entries.getItem k = db2.entries.getItem k) ∧ CIDict.iter db1.entries ≠ CIDict.iter db2.entries ∧
+    (∀ c ∈ S0.citations, c ≠ star) := by
+  refine ⟨?_, by decide +kernel, by decide +kernel⟩
+  intro k
+  by_cases ha : lower k = s "a"
+  · rw [getItem_lower_congr _ (show lower k = lower (s "a") from ha.trans (by decide)),
+      getItem_lower_congr db2.entries (show lower k = lower (s "a") from ha.trans (by decide))]
+    exact entView_inj (by decide +kernel)
+  by_cases hb : lower k = s "b"
+  · rw [getItem_lower_congr _ (show lower k = lower (s "b") from hb.trans (by decide)),
+      getItem_lower_congr db2.entries (show lower k = lower (s "b") from hb.trans (by decide))]
+    exact entView_inj (by decide +kernel)
+  have none_of : ∀ d : CIDict Entry, (d.dict.map Prod.fst).all (fun x => x = s "a" || x = s "b") = true →
+      d.getItem k = none := by
+    intro d hd
+    cases hg : d.getItem k with
+    | none => rfl
+    | some e =>
+      exfalso
+      have h1 : dhas d.dict (lower k) = true := by
+        show (d.getItem k).isSome = true
+        rw [hg]; rfl
+      have h2 := List.all_eq_true.1 hd _ ((dhas_iff_mem _ _).1 h1)
+      simp only [Bool.or_eq_true, decide_eq_true_eq] at h2
+      rcases h2 with h2 | h2
+      · exact ha h2
+      · exact hb h2
+  rw [none_of db1.entries (by decide +kernel), none_of db2.entries (by decide +kernel)]
+
+/-- Reordering the entry list a `bib_format` reader delivers: two NEIGHBOURS `a`, `b` change
+places.  If their keys differ up to case, neither is the `crossref` target of the other (the
+parent-after-child proviso of C05: exchanging a child with its uncited parent would put the parent
+where it is not wanted yet) nor refers to `*`, at most one of them repeats a key occurring earlier
+in the list, and no `*` is cited (with `*` the order of the list IS the citation order), then for a
+style `pre; READ; post` (no other `READ`) the whole run — `.bbl`, reports, printed output, or the
+error — is the same for both orders.  Every reordering that respects these conditions at each step
+is a composition of such exchanges.  (Proof: the two parser states are equivalent — same reports
+and preamble, the same entries in another order, wanted sets accepting the same keys — and stay
+so while the rest of the list is added; equivalent states give databases with the same entry under
+every key; `C06_frame_reordered`; `C06_frame_run`.) -/
+theorem C06_frame_swap_alt (fuel : Nat) (pre post : Bst.Program) (rd : Bst.Command)
+    (hpre : ∀ c ∈ pre, upper c.name ≠ "READ".toList) (hrd : upper rd.name = "READ".toList)
+    (hpost : ∀ c ∈ post, upper c.name ≠ "READ".toList)
+    (cits : List Str) (mc : Int) (ts ts' : List Str)
+    (epre epost : List (Str × Bib.Entry)) (a b : Str × Bib.Entry) (pream : List Str)
+    (hns : ∀ c ∈ cits, c ≠ star)
+    (h1 : lower a.1 ≠ lower b.1) (h2a : NoRefD a b.1) (h2b : NoRefD b a.1)
+    (h3 : (∀ ke ∈ epre, lower ke.1 ≠ lower a.1) ∨ (∀ ke ∈ epre, lower ke.1 ≠ lower b.1)) :
+    run fuel (pre ++ rd :: post)
+        { bibTexts := ts, citations := cits, minCrossrefs := mc, alt := some (epre ++ a :: b :: epost, pream) } =
+      run fuel (pre ++ rd :: post)
+        { bibTexts := ts', citations := cits, minCrossrefs := mc, alt := some (epre ++ b :: a :: epost, pream) } := by
+  refine C06_frame_run fuel _ _ pre post rd rfl hpre hrd hpost ?_
+  intro st hst
+  have hk := runProgram_keep fuel
+    { bibTexts := ts, citations := cits, minCrossrefs := mc, alt := some (epre ++ a :: b :: epost, pream) } pre hpre
+    { vars := initVars, citations := cits } rfl
+  rw [hst] at hk
+  have hns' : ∀ c ∈ st.citations, c ≠ star := fun c hc => hns c (hk.2.2.mem_iff.1 hc)
+  obtain ⟨he, hn⟩ := altParsed_swap st epre epost a b pream h1 h2a h2b h3
+  refine C06_frame_reordered fuel _ _ rd st hrd rfl ?_ ?_ ?_ hns'
+  · rw [readParsed_alt, readParsed_alt, he.pre]
+  · rw [readParsed_alt, readParsed_alt, he.errs]
+  · intro k
+    rw [readParsed_alt, readParsed_alt]
+    exact convertDb_getItem_perm _ _ hn he.ents k
+
+/-- the example list `noise b a` with `b` and `a` exchanged satisfies the conditions, and the two
+runs give the same `.bbl` -/
+theorem C06_frame_swap_alt_nonvacuous :
+    lower (ent "b" "Y").1 ≠ lower (ent "a" "Z").1 ∧ NoRefD (ent "b" "Y") (ent "a" "Z").1 ∧
+    NoRefD (ent "a" "Z") (ent "b" "Y").1 ∧
+    (∀ ke ∈ [ent "noise" "N"], lower ke.1 ≠ lower (ent "b" "Y").1) ∧ (∀ c ∈ [s "a", s "b"], c ≠ star) ∧
+    (match run 100 ([] ++ rdEx :: postEx)
+        { bibTexts := [], citations := [s "a", s "b"], alt := some ([ent "noise" "N"] ++ ent "a" "Z" :: ent "b" "Y" :: [], []) } with
+      | .ok o => some o.bbl | .error _ => none) = some (s "a\nb\n") := by
+  decide +kernel
+
+/-- The same for alpha.bst, whose `output.bibitem` begins
+`newline$ "\bibitem[" write$ label write$ "]{" write$ cite$ write$ "}" write$ newline$` (`label` an
+entry string variable): an entry function `output.bibitem rest…` run for the entry `k` appends
+lines that start with the pending output line and `\bibitem[L]{k}`, `L` the text of `k`'s `label`
+variable at that moment, whatever `rest` does. -/
+theorem C06_item_starts_with_bibitem_alpha (fuel : Nat) (obTail rest : List BTok) (st st' : St) (k : Str)
+    (hv : StdOut st.vars) (hl : st.vars.getItem "label".toList = some (.estr "label".toList))
+    (hob : st.vars.getItem "output.bibitem".toList = some (.func (bibitemHeadAlpha ++ obTail)))
+    (hcur : st.cur = some k)
+    (h : execBody fuel (.name "output.bibitem".toList :: rest) st = .ok st') :
+    ∃ L more, labelText st k = some L ∧ st'.lines = st.lines ++ bibitemLinesAlpha st.buffer L k ++ more := by
+  obtain ⟨n1, s1, -, t1, h⟩ := execBody_cons_ok h
+  obtain ⟨m, -, t1⟩ := execTok_name_ok hob t1
+  cases m with
+  | zero => cases t1
+  | succ m' =>
+    have t1' : execBody m' (bibitemHeadAlpha ++ obTail) st = .ok s1 := t1
+    obtain ⟨n2, L, hL, t2⟩ := bibitemHeadAlpha_run m' obTail st s1 k hv hl hcur t1'
+    obtain ⟨m1, q1⟩ := execBody_ext t2
+    obtain ⟨m2, q2⟩ := execBody_ext h
+    exact ⟨L, m1 ++ m2, hL, by rw [q2, q1, List.append_assoc]⟩
+
+/-- a style with alpha.bst's `output.bibitem` and labels computed in an earlier pass -/
+theorem C06_item_starts_with_bibitem_alpha_nonvacuous :
+    (match run 1000 (match Bst.parseFile (s "ENTRY {title}{}{label} FUNCTION {output.bibitem} {newline$ \"\\bibitem[\" write$ label write$ \"]{\" write$ cite$ write$ \"}\" write$ newline$} FUNCTION {mk} {title 'label :=} FUNCTION {misc} {output.bibitem} READ ITERATE {mk} ITERATE {call.type$}") with | .ok p => p | .error _ => [])
+        { bibTexts := [bib], citations := [s "a", s "b"] } with
+     | .ok o => some o.bbl
+     | .error _ => none) = some (s "\n\\bibitem[Z]{a}\n\n\\bibitem[Y]{b}\n") ∧
+    bibitemLinesAlpha [] (s "Z") (s "a") = [[], ['\n'], s "\\bibitem[Z]{a}", ['\n']] := by
+  decide +kernel
 
 end Pybtex.Props
